@@ -13,8 +13,13 @@ Correspondence streams (model `lean/Model/C05/*` vs the real btclib, same op lin
       fields (btclib's parser not involved); the model must parse `x.serialize()` to an object rendering as
       `x`, which with T2 of the model gives model.ser(x) == x.serialize()
   psbtmap.norm                         sorted re-emission of one PSBT input map
-  psbtin.reser0|2, psbtout.reser0|2    typed layer: `X.parse(b).serialize()` on every accepted map, records
-      the codec normalises away included (one-sided where btclib's refusal is semantic)
+  psbtin.reser0|2, psbtout.reser0|2, psbtglobal.reser   typed layer: `X.parse(b).serialize()` on every map, records
+      the codec normalises away included; EVERY refusal is compared (the model carries the checks that run whatever
+      check_validity says: Tx.assert_valid, MoneyRange, hd key lengths, duplicated key origins); reasons are counted
+  psbtin.reserv|psbtout.reserv <ver>   the same at any version number (only 0 and 2 are admitted)
+  psbtin|psbtout|psbtglobal.torecs <ver> <whole>,<keyed>,<unknown>   objects built by the CONSTRUCTORS (no parser),
+      each field's value through btclib's own field serializer; the model runs its serialize loop (version gate,
+      finalizer rule, truthiness, order) on the same fields
 Property oracles on the real code alone: `harness/c05_oracles.py` (round trips of every class with a
 parse/serialize or to_dict/from_dict pair) and the ones below.
 """
@@ -43,6 +48,8 @@ RULE = ("op lines are generated from one seeded PRNG: valid objects built field 
         "all-empty witness sections); a case is non-trivial when the implementation did not refuse it; "
         "distinct = distinct (stream, op line)")
 TRUSTED = ["hand-written parser/serializer models are tied by correspondence only (Model/C05/*.lean)",
+           "tools/specs/wire.py reads the PSBT tables off the syntax trees of psbt_in/psbt_out/psbt (raises on an unknown shape)",
+           "torecs streams: the value octets of each field come from btclib's own per-field serializers",
            "datetime.fromtimestamp/timestamp as a bijection on 0..2^32-1 (BlockHeader.time)",
            "SHA-256 of the driver (Model/Common/Sha256.lean) is modelled, validated against hashlib by the id streams",
            "JSON text layer (json module), base64, Base58Check: not modelled; round-trip oracles only"]
